@@ -451,7 +451,7 @@ def compare(kind, model, snap):
 
 
 # ---- search -------------------------------------------------------------------------------------------
-def search(tname, depth, pairs):
+def search(tname, depth, pairs, first=None):
     kind, params = TYPES[tname]
     seen = set()
     frontier = collections.deque()
@@ -477,7 +477,9 @@ def search(tname, depth, pairs):
         m = replay_model(hist)
         ops = m.enabled()
         if len(hist) < depth:
-            for op in ops:
+            for op_index, op in enumerate(ops):
+                if not hist and first is not None and op_index != first:
+                    continue        # this case explores the histories that begin with the `first`-th operation
                 steps = hist + [[op]]
                 mm = replay_model(steps)
                 snaps, outcome, _ = run_real(kind, params, steps)
@@ -501,7 +503,7 @@ def search(tname, depth, pairs):
                     frontier.append(steps)
                     if len(samples) < 2 and len(steps) >= 3:
                         samples.append({'type': tname, 'history': steps})
-        if pairs and not viol and len(hist) <= depth - 1:
+        if pairs and not viol and len(hist) <= depth - 1 and (hist or first in (None, 0)):
             # every ordered pair of operations within one time step, from this reachable state: invariants only
             issuing = [o for o in ops]
             for a, b in itertools.product(issuing, issuing):
@@ -532,12 +534,17 @@ def BOUNDS(tier):
 
 
 def cases(tier):
-    return [{'type': t} for t in TYPES]
+    out = []
+    for t, (kind, params) in TYPES.items():
+        n = len(Model(kind, params).enabled())
+        for i in range(n):
+            out.append({'type': t, 'first': i})      # one case per first operation (load balance); states are deduplicated per case
+    return out
 
 
 def explore_case(case, tier):
     depth = 4 if tier == 'quick' else 6
-    r = search(case['type'], depth, True)
+    r = search(case['type'], depth, True, case.get('first'))
     return r
 
 
